@@ -32,7 +32,10 @@ LEVEL_TEXT = (
     "'not later than', and its verdict depends on nothing else; (R11.4) range processing, 304 and 412 are dominated by the "
     "GET/HEAD test, 304/412 by 'not modified' for the response's own ETag and Last-Modified, 412 by a non-empty If-Match "
     "(status chosen by branches, a conditional expression or a two-entry table indexed by that test; arguments passed "
-    "directly or through a literal * / ** table); "
+    "directly or through a literal * / ** table; every dominating condition is read as the literals it implies, a flag "
+    "local - bound before or between the ifs - standing for its defining expression, bool(X) / a walrus / True-if-X-else-False "
+    "for X, negation flipping the side, so a test, a flag holding it and split or merged guards are the same thing; a "
+    "condition that uses one of these verdicts other than by its truth is reported as not understood); "
     "the 206 path by the Range / If-Range (ignore_if_range=False) gate; (R11.5) Content-Length, Content-Range, the "
     "_RangeWrapper window and status 206 derive from one range_for_length / to_content_range_header pair of one parsed "
     "Range and one complete length, status is set before the wrap, the wrap passes (start, length) to (start_byte, "
@@ -980,11 +983,54 @@ def rule_3(ctx: Ctx, A: FA, V: str, p_r: int) -> None:
 
     # a comparison is either a branch condition (`if ... and lm <= ms: V = True`) or part of a boolean expression
     # stored in the verdict (`V = bool(ms and lm and lm <= ms)`): (node, compare, lm, other, verdict statement | None)
+    # ... or sits in the expression a flag local was bound to, the flag being the branch condition
+    # (`not_newer = bool(ms and lm and lm <= ms)` ... `if not_newer: V = True`): then an edge of the flag test stands for
+    # whatever value of the comparison all valuations of the flag's conditions with that outcome agree on.
     comps: list[tuple] = []
+    flag_of: dict[int, ast.AST] = {}  # id(compare) -> the flag's defining expression
     for t_ in A.cfg.tests():
         ds_ = date_sides(t_.ast, t_) if t_.kind == "test" else None
         if ds_ is not None:
             comps.append((t_, t_.ast, ds_[0], ds_[1], None))
+        elif t_.kind == "test" and isinstance(t_.ast, ast.Name):
+            fv = A.single_value(t_.ast)
+            fn_ = A.cfg.node_of(fv) if fv is not None else None
+            if fv is None or fn_ is None:
+                continue
+            for x in ast.walk(fv):
+                ds_ = date_sides(x, fn_) if isinstance(x, ast.Compare) else None
+                if ds_ is not None:
+                    if not any(x is lf for lf in _bool_leaves(fv)):
+                        raise AnalysisError(f"{san.fq}: the date comparison `{norm(x)}` is used inside `{norm(fv)[:70]}` other than as a condition of it")
+                    flag_of[id(x)] = fv
+                    comps.append((t_, x, ds_[0], ds_[1], None))
+
+    def edge_facts(cmp_: ast.AST, l: str) -> set:
+        """order facts that hold when the branch test the comparison belongs to takes edge l"""
+        fv = flag_of.get(id(cmp_))
+        if fv is None:
+            return H.order_facts(cmp_, l)
+        leaves = _bool_leaves(fv)
+        seen_ = set()
+        for bits in itertools.product((False, True), repeat=len(leaves)):
+            val = {id(x): b_ for x, b_ in zip(leaves, bits)}
+            if _bool_eval(fv, val) == (l == "T"):
+                seen_.add(val[id(cmp_)])
+        return H.order_facts(cmp_, "T" if True in seen_ else "F") if len(seen_) == 1 else set()
+
+    def names_x(e_: ast.AST | None) -> set[str]:
+        """names a condition depends on, a flag local counted as the names of the expression it was bound to"""
+        out_: set[str] = set()
+        tc_ = H.truth_core(e_) if e_ is not None else None
+        if tc_ is not None:
+            return names_x(tc_[0])  # bool(X) depends on what X depends on
+        for x in ast.walk(e_) if e_ is not None else ():
+            if isinstance(x, ast.Name):
+                v_ = A.single_value(x) if isinstance(x.ctx, ast.Load) and A.cfg.node_of(x) is not None else None
+                flagish = v_ is not None and (isinstance(v_, (ast.Compare, ast.BoolOp)) or H.truth_core(v_) is not None or (isinstance(v_, ast.UnaryOp) and isinstance(v_.op, ast.Not)))
+                out_ |= names_x(v_) if flagish else {x.id}
+        return out_
+
     for dn in A.def_nodes_of(V):
         st = dn.ast
         if isinstance(st, (ast.Assign, ast.AnnAssign)) and st.value is not None and not isinstance(st.value, ast.Constant):
@@ -999,7 +1045,7 @@ def rule_3(ctx: Ctx, A: FA, V: str, p_r: int) -> None:
         L = None
         if okey is not None:
             for l in ("T", "F"):
-                if (lm.id, "<=", okey) in H.order_facts(cmp, l):
+                if (lm.id, "<=", okey) in edge_facts(cmp, l):
                     L = l
         ctx.ob(R, "Last-Modified is compared as 'not later than' the client's date (equal dates match)", L is not None, f"`{norm(cmp)}`: {'its ' + ('true' if L == 'T' else 'false') + ' edge means ' + lm.id + ' <= ' + str(okey) if L else 'no edge of this test means ' + lm.id + ' <= ' + norm(other)}", san, cmp, "date comparison direction")
         if vst is None:
@@ -1014,15 +1060,15 @@ def rule_3(ctx: Ctx, A: FA, V: str, p_r: int) -> None:
             if not cands:
                 raise AnalysisError(f"{san.fq}: no constant verdict assignment depends on `{norm(cmp)}`")
             for dn, st, l in cands:
-                facts = H.order_facts(cmp, l)
+                facts = edge_facts(cmp, l)
                 means_le = okey is not None and H.has_less(facts, lm.id, okey, strict=False)
                 unmod = st.value.value == bool(p_r)
                 ctx.ob(R, "the date verdict is 'not modified' exactly on the not-later side", means_le == unmod, f"`{norm(st)}` on the {'true' if l == 'T' else 'false'} side of `{norm(cmp)}` with `return {'not ' if p_r else ''}{V}`", san, st, "date verdict side")
                 extra = []
                 for t2, l2 in A.guards(dn):
-                    if t2 is C:
+                    if t2 is C and id(cmp) not in flag_of:
                         continue
-                    nm = astq.names_in(t2.ast) if t2.ast is not None else set()
+                    nm = names_x(t2.ast)
                     if not nm <= {lm.id, okey}:
                         extra.append(f"{norm(t2.ast)} is {'true' if l2 == 'T' else 'false'}")
                 ctx.ob(R, "the date verdict depends only on the two dates", not extra, f"additionally requires: {extra}" if extra else f"guards of `{norm(st)}` mention only {lm.id} / {okey}", san, st, "date verdict guards")
@@ -1044,21 +1090,17 @@ def rule_3(ctx: Ctx, A: FA, V: str, p_r: int) -> None:
                     extra.append(f"{norm(t2.ast)} is {'true' if l2 == 'T' else 'false'}")
             ctx.ob(R, "the date verdict depends only on the two dates", not extra, f"additionally depends on: {extra}" if extra else f"`{norm(vst)}` mentions only {lm.id} / {okey}", san, vst, "date verdict guards")
         # (4) normalisation of every non-None value that reaches the comparison
-        none_edges = []
-        for t2 in A.cfg.tests():
-            if t2.kind != "test" or t2.ast is None:
-                continue
-            for l2 in ("T", "F"):
-                if H.none_proving(t2.ast, l2) == lm.id:
-                    none_edges.append((t2, l2))
+        # edges taken only by a None (or falsy) value: the test itself, or a flag holding it (`has = lm is not None`)
+        none_edges = H.proving_edges(A, lambda e_, l2, n2: H.none_proving(e_, l2) == lm.id)
         defnodes = A.def_nodes_of(lm.id)
         tot = {"utc": [], "sec": [], "fields": []}
         ndefs = 0
-        for d in A.rd.reaching(C, lm.id):
+        Cn = A.cfg.node_of(cmp) or C  # where the comparison is evaluated (the test, or the statement binding the flag)
+        for d in A.rd.reaching(Cn, lm.id):
             start = d.node if d.node is not None else A.cfg.entry
             others = [x for x in defnodes if x is not d.node]
             r = A.cfg.reach(start, avoid_nodes=others, avoid_edges=none_edges)
-            if C.id not in r:
+            if Cn.id not in r:
                 continue  # this binding only arrives as None
             ndefs += 1
             if d.kind == "param":
@@ -1246,16 +1288,29 @@ def rule_4(ctx: Ctx) -> None:
     mc = _method(ctx, resp, "make_conditional")
     M = FA(repo, mc)
     folder = Folder(repo)
-    gate = None
-    for t_ in M.cfg.tests():
-        p = astq.cmp_parts(t_.ast) if t_.kind == "test" and t_.ast is not None else None
+
+    def gate_lit(e_: ast.AST, l: str):
+        """(text of environ, collection, positive?) when the literal is a membership test on environ['REQUEST_METHOD']"""
+        p = astq.cmp_parts(e_)
         if p and isinstance(p[1], (ast.In, ast.NotIn)):
             subj = p[0]
             if isinstance(subj, ast.Name):  # method = environ["REQUEST_METHOD"]
                 subj = M.single_value(subj) or subj
             hk = H.header_get_key(subj)
             if hk and hk[1] == "REQUEST_METHOD":
-                gate = (t_, "T" if isinstance(p[1], ast.In) else "F", hk[0], p[2])
+                return hk[0], p[2], isinstance(p[1], ast.In) == (l == "T")
+        return None
+
+    # the method gate: the test edge that means "REQUEST_METHOD in <collection>" (the test itself, or a flag holding it)
+    gate = None
+    for t_ in M.cfg.tests():
+        if t_.kind != "test" or t_.ast is None:
+            continue
+        for GL_ in ("T", "F"):
+            for e_, l in H.expand_literal(M, t_.ast, GL_):
+                g_ = gate_lit(e_, l)
+                if g_ is not None and g_[2]:
+                    gate = (t_, GL_, g_[0], g_[1])
     if gate is None:
         raise AnalysisError(f"{mc.fq}: no membership test on environ['REQUEST_METHOD']")
     G, GL, env_name, coll = gate
@@ -1277,45 +1332,44 @@ def rule_4(ctx: Ctx) -> None:
         ctx.ob(R, "make_conditional hands its complete_length to range processing", ok, f"complete_length={norm(cl) if cl is not None else 'absent'}", mc, c, "range call complete_length")
         e = b.get("environ")
         ctx.ob(R, "range processing reads the same environ as the method test", e is not None and norm(e) == env_name, f"environ={norm(e) if e is not None else 'absent'}, method test reads `{env_name}`", mc, c, "range call environ")
-    is206 = set()
-    for d in (d for ds in M.rd.gen.values() for d in ds):
-        if d.value is not None and any(d.value is c for c in prc):
-            is206.add(d.name)
 
-    # tests on is_resource_modified(...): the call itself, or a local holding its (negated) result.
-    # irm[test node] = (call, label of the edge that means "not modified")
-    irm: dict = {}
-    for t_ in M.cfg.tests():
-        if t_.kind != "test" or t_.ast is None:
-            continue
-        e_, nn = t_.ast, 0
-        if isinstance(e_, ast.Name):
-            sv = M.single_value(e_)
-            if sv is None:
-                continue
-            e_, nn = H.strip_not(sv)
-        if isinstance(e_, ast.Call) and M.resolve(e_.func) == WRAP:
-            irm[t_] = (e_, "F" if nn % 2 == 0 else "T")
-    irm_atoms = list(irm)
-    if not irm_atoms:
+    # conditions are read as *literals*: every dominating test edge (and every arm condition of a conditional
+    # expression / two-entry table choosing the status) expanded to what it tests - a flag local stands for its
+    # defining expression wherever it was bound, bool(X) for X, `not` flips the side, a true conjunction gives each
+    # member (H.expand_literal).  A literal is then recognised by what it is, not by where it is written.
+    def is_irm(e_: ast.AST) -> bool:
+        return isinstance(e_, ast.Call) and M.resolve(e_.func) == WRAP
+
+    is206 = {d.name for ds in M.rd.gen.values() for d in ds if d.value is not None and any(d.value is c for c in prc)}
+
+    def is_prc(e_: ast.AST) -> bool:
+        """the result of range processing (the call, or a local that holds it on some path: "not already 206")"""
+        return any(e_ is c for c in prc) or (isinstance(e_, ast.Name) and e_.id in is206)
+
+    def im_header(e_: ast.AST | None) -> tuple[str, str] | None:
+        """(environ text, key) when the literal is parse_etags(<environ>.get(<key>)) - its truth: that header has tags"""
+        if not (isinstance(e_, ast.Call) and M.resolve(e_.func) == "werkzeug.http.parse_etags" and len(e_.args) == 1 and not e_.keywords):
+            return None
+        a0 = e_.args[0]
+        if isinstance(a0, ast.Name):  # raw = environ.get("HTTP_IF_MATCH"); parse_etags(raw)
+            a0 = M.single_value(a0) or a0
+        return H.header_get_key(a0)
+
+    def im_expr(e_: ast.AST | None) -> bool:
+        return im_header(e_) == (env_name, "HTTP_IF_MATCH")
+
+    def about_if_match(x: ast.AST) -> bool:
+        return (isinstance(x, ast.Constant) and x.value == "HTTP_IF_MATCH") or (isinstance(x, ast.Call) and M.resolve(x.func) == "werkzeug.http.parse_etags")
+
+    irm_calls = M.calls_to(WRAP)
+    if not irm_calls:
         raise AnalysisError(f"{mc.fq}: no test on is_resource_modified(...)")
-    for t_ in irm_atoms:
-        call_ = irm[t_][0]
+    for call_ in irm_calls:
         ok, fact = _irm_args(ctx, M, call_, True)
         b = H.bind(call_, repo.func(WRAP), bound=False)
         ok = ok and "environ" in b and norm(b["environ"]) == env_name
         ctx.ob(R, "304/412 are decided against the response's own ETag and Last-Modified, If-Range not considered", ok, fact, mc, call_, "make_conditional is_resource_modified arguments")
 
-    def im_expr(e: ast.AST | None) -> bool:
-        """the condition is the truth of parse_etags(environ.get("HTTP_IF_MATCH")) (directly or through a local)"""
-        if isinstance(e, ast.Name):
-            e = M.single_value(e)
-        if not (isinstance(e, ast.Call) and M.resolve(e.func) == "werkzeug.http.parse_etags" and len(e.args) == 1):
-            return False
-        hk = H.header_get_key(e.args[0])
-        return hk is not None and hk[0] == env_name and hk[1] == "HTTP_IF_MATCH"
-
-    im_atoms = [t_ for t_ in M.cfg.tests() if t_.kind == "test" and t_.ast is not None and im_expr(t_.ast)]
     stores = [(s, code, extra) for s, code, extra in _status_stores_c(mc.node, M) if code in (304, 412)]
     if not any(code == 304 for _, code, _ in stores):
         raise AnalysisError(f"{mc.fq}: no assignment of status 304")
@@ -1323,31 +1377,49 @@ def rule_4(ctx: Ctx) -> None:
     for s, code, extra in stores:
         sn = M.node(s)
         gs = M.guards(sn)
+        lits = H.guard_literals(M, sn, extra)
         ctx.ob(R, f"status {code} only for GET/HEAD", (G, GL) in gs, f"`{norm(s)}` {'is' if (G, GL) in gs else 'is NOT'} dominated by `{norm(G.ast)}`", mc, s, f"status {code} gated")
-        nm = [t_ for t_ in irm_atoms if (t_, irm[t_][1]) in gs]
-        shown = [norm(t_.ast)[:40] + ('' if l == 'T' else ' is false') for t_, l in gs] + [norm(e_)[:40] + ('' if l == 'T' else ' is false') for e_, l in extra]
+        shown = [norm(e_)[:40] + ('' if l == 'T' else ' is false') for e_, l in lits]
+        nm = [e_ for e_, l in lits if is_irm(e_) and l == "F"]
+        if not nm:
+            # a condition that involves the call in a way that is not read as its truth value: not understood,
+            # which is not the same as "not guarded"
+            odd = H.misread(M, lits, is_irm)
+            if odd is not None:
+                raise AnalysisError(f"{mc.fq}: status {code} is under `{norm(odd)[:70]}`, which involves is_resource_modified(...) in a way that is not understood")
         ctx.ob(R, f"status {code} only when is_resource_modified says not modified", bool(nm), f"`{norm(s)}` guards: {shown}", mc, s, f"status {code} needs not-modified")
         want = "T" if code == 412 else "F"
-        hit = [t_ for t_ in im_atoms if (t_, want) in gs] + [e_ for e_, l in extra if l == want and im_expr(e_)]
+        hit = [e_ for e_, l in lits if l == want and im_expr(e_)]
+        if not hit:
+            odd = H.misread(M, lits, lambda x: im_header(x) is not None, about_if_match)  # a parse of another header is understood (and wrong)
+            if odd is not None:
+                raise AnalysisError(f"{mc.fq}: status {code} is under `{norm(odd)[:70]}`, which involves If-Match in a way that is not understood")
         ctx.ob(R, "status 412 only under a non-empty If-Match" if code == 412 else "status 304 only without If-Match (a failed If-Match is 412)", bool(hit), f"status {code} in `{norm(s)}` {'is' if hit else 'is NOT'} on the {'true' if want == 'T' else 'false'} side of a parse_etags({env_name}.get('HTTP_IF_MATCH')) test", mc, s, f"status {code} If-Match side")
         if code == 304:
-            allowed = {id(G)} | {id(t_) for t_ in irm_atoms} | {id(t_) for t_ in im_atoms}
-            more = [f"{norm(t_.ast)} is {'true' if l == 'T' else 'false'}" for t_, l in gs if id(t_) not in allowed and not (isinstance(t_.ast, ast.Name) and t_.ast.id in is206)]
-            more += [f"{norm(e_)} is {'true' if l == 'T' else 'false'}" for e_, l in extra if not im_expr(e_)]
+            more = [f"{norm(e_)} is {'true' if l == 'T' else 'false'}" for e_, l in lits if not (gate_lit(e_, l) is not None or is_irm(e_) or im_expr(e_) or is_prc(e_))]
             ctx.ob(R, "304 follows whenever the validators match for GET/HEAD (no further condition)", not more, f"additionally requires: {more}" if more else "guards: method test, not-modified, no If-Match (and not already 206)", mc, s, "status 304 guards")
 
     # ---- the 206 path inside _process_range_request
     pr = _method(ctx, resp, "_process_range_request")
     P = FA(repo, pr)
-    proc = [t_ for t_ in P.cfg.tests() if t_.kind == "test" and isinstance(t_.ast, ast.Call) and isinstance(t_.ast.func, ast.Attribute) and astq.is_name(t_.ast.func.value, "self") and t_.ast.func.attr == "_is_range_request_processable"]
+
+    def is_proc(e_: ast.AST) -> bool:
+        return isinstance(e_, ast.Call) and isinstance(e_.func, ast.Attribute) and astq.is_name(e_.func.value, "self") and e_.func.attr == "_is_range_request_processable"
+
+    nproc = len([c for c in P.method_calls("_is_range_request_processable") if is_proc(c)])
     marks: list[tuple[str, ast.AST]] = [("status 206", s) for s, code in _status_stores(pr.node) if code == 206]
     marks += [("range wrap", WrapSite(ctx, P).call)]
     marks += [("Range parse", c) for c in P.calls_to("werkzeug.http.parse_range_header")]
     if len(marks) < 3:
         raise AnalysisError(f"{pr.fq}: expected a 206 assignment, a _wrap_range_response call and a parse_range_header call")
     for what, a in marks:
-        ok = any(P.dominated_by(a, t_, "T") for t_ in proc)
-        ctx.ob(R, f"{what} only when the range request is processable (Range present, If-Range satisfied)", ok, f"`{norm(a)[:70]}` {'is' if ok else 'is NOT'} dominated by a true `self._is_range_request_processable(...)` test ({len(proc)} such test(s) in the function)", pr, a, f"{what} processable")
+        lits = H.guard_literals(P, a)
+        ok = P.cfg.reachable(P.node(a)) and any(is_proc(e_) and l == "T" for e_, l in lits)
+        if not ok:
+            odd = H.misread(P, lits, is_proc)
+            if odd is not None:
+                raise AnalysisError(f"{pr.fq}: {what} is under `{norm(odd)[:70]}`, which involves _is_range_request_processable(...) in a way that is not understood")
+        ctx.ob(R, f"{what} only when the range request is processable (Range present, If-Range satisfied)", ok, f"`{norm(a)[:70]}` {'is' if ok else 'is NOT'} dominated by a true `self._is_range_request_processable(...)` test ({nproc} such call(s) in the function)", pr, a, f"{what} processable")
     ctx.floor(R, "206-path effects", len(marks), 3)
 
     q = _method(ctx, resp, "_is_range_request_processable")
@@ -1609,16 +1681,17 @@ def rule_5(ctx: Ctx, P: FA, S: RangeSlots) -> None:
     ctx.ob(R, "_RangeWrapper gets (self.response, start -> start_byte, length -> byte_range)", ok, f"`{norm(rwc_call)}` binds {{{', '.join(k + ': ' + norm(v) for k, v in bb.items())}}}", where, rwc_call, "wrapper arguments")
     st = astq.stmt_of(where, rwc_call)
     stored = isinstance(st, ast.Assign) and len(st.targets) == 1 and astq.is_self_attr(st.targets[0], "response") and st.value is rwc_call
-    gs = W.guards(rwc_call)
-    g206 = [(t_, l) for t_, l in gs if _is_206_test(t_.ast, l)]
+    gs = H.guard_literals_at(W, rwc_call)  # literals, flags expanded: `partial = self.status_code == 206; if partial:` is the test
+    g206 = [(e_, l) for e_, l, _ in gs if _is_206_test(e_, l)]
+    rest = [(e_, l, n_) for e_, l, n_ in gs if not _is_206_test(e_, l)]
     if site.inline:
         # no helper: the construction must sit right behind the 206 assignment, under no further condition
-        base = {(id(t_), l) for t_, l in P.guards(st206[0])}
-        mine = {(id(t_), l) for t_, l in gs if (t_, l) not in g206}
+        base = {(norm(e_), l, n_.id) for e_, l, n_ in H.guard_literals_at(P, st206[0])}
+        mine = {(norm(e_), l, n_.id) for e_, l, n_ in rest}
         iff = stored and mine == base
     else:
-        iff = stored and len(g206) == 1 and len(gs) == 1
-    ctx.ob(R, "the wrapper replaces self.response exactly when the status is 206", iff, f"`{norm(st)}` under {[norm(t_.ast) + ('' if l == 'T' else ' is false') for t_, l in gs]}" + (" (inlined; the 206 assignment is under the same conditions)" if site.inline and iff else ""), where, rwc_call, "wrap iff 206")
+        iff = stored and len(g206) >= 1 and not rest
+    ctx.ob(R, "the wrapper replaces self.response exactly when the status is 206", iff, f"`{norm(st)}` under {[norm(e_) + ('' if l == 'T' else ' is false') for e_, l, _ in gs]}" + (" (inlined; the 206 assignment is under the same conditions)" if site.inline and iff else ""), where, rwc_call, "wrap iff 206")
 
     # Range.to_content_range_header
     rng = H.class_of(repo, "werkzeug.datastructures.range.Range")
@@ -1668,16 +1741,20 @@ def rule_5(ctx: Ctx, P: FA, S: RangeSlots) -> None:
 
 
 def _none_tests(X: FA, var: str, is_use) -> list[tuple]:
-    """(atom, label on which var is None) for tests of exactly this binding"""
+    """(test, label, expressions read) for every test edge that a None in exactly this binding of ``var`` takes: the
+    *other* edge implies - as a literal, flags expanded to what they test (H.expand_literal) - that var is not None.
+    So `if v is None`, `if not v`, `missing = v is None or w is None; if missing`, `ok = v is not None; if not ok`
+    are the same check."""
     out = []
     for t_ in X.cfg.tests():
         if t_.kind != "test" or t_.ast is None:
             continue
         for l in ("T", "F"):
-            if H.none_proving(t_.ast, l) == var:
-                nm = t_.ast if isinstance(t_.ast, ast.Name) else t_.ast.left  # type: ignore[attr-defined]
-                if is_use(nm):
-                    out.append((t_, l))
+            for e_, l2 in H.expand_literal(X, t_.ast, H.flip(l), keep=is_use):
+                if H.none_proving(e_, H.flip(l2)) == var:
+                    nm = e_ if isinstance(e_, ast.Name) else e_.left  # type: ignore[attr-defined]
+                    if is_use(nm):
+                        out.append((t_, l, e_))
     return out
 
 
@@ -1689,12 +1766,17 @@ def rule_6(ctx: Ctx, P: FA, S: RangeSlots) -> None:
         def is_use(e, var=var, st=st):
             return S.is_var(e, var, st)
 
-        nts = _none_tests(P, var, is_use)
+        nts3 = _none_tests(P, var, is_use)
+        nts = [(t_, l) for t_, l, _ in nts3]
         n += 1
         if not nts:
+            odd = [t_ for t_ in P.cfg.tests() if t_.kind == "test" and t_.ast is not None and H.mentions(P, t_.ast, lambda x: isinstance(x, ast.Name) and is_use(x))]
+            if odd:
+                # the result does decide a branch, but not by a None / truth test: not understood (not "unchecked")
+                raise AnalysisError(f"{pr.fq}: `{var}` ({what}) is tested by `{norm(odd[0].ast)[:70]}`, which is not read as a None check")
             ctx.ob(R, f"a None from {what} is checked", False, f"`{var}` is never tested for None", pr, st, f"{what} none test")
             continue
-        in_tests = {id(x) for t_, _ in nts for x in ast.walk(t_.ast)}
+        in_tests = {id(x) for t_, _, e_ in nts3 for y in (t_.ast, e_) for x in ast.walk(y)}
         bad_exit = []
         wrong_raise = []
         for t_, l in nts:
@@ -1845,7 +1927,9 @@ def rule_7(ctx: Ctx) -> None:
         S = Se.id
         # (condition atom, label, node in which it is evaluated): dominating branch edges and the arms of a
         # conditional expression in the return itself
-        guards = [(t_.ast, l, t_) for t_, l in X.guards(rn)] + [(e_, l, rn) for e_, l in extra]
+        # ... each as the literals it implies, a flag local standing for the expression it was bound to and evaluated
+        # where it was bound (H.guard_literals_at)
+        guards = H.guard_literals_at(X, rn, extra)
 
         def ver(name: str, at) -> str:
             """a name together with the bindings visible at a node: facts are about values, not about names"""
@@ -1869,7 +1953,7 @@ def rule_7(ctx: Ctx) -> None:
             if not isinstance(e, ast.Name):
                 return False
             var = e.id
-            nn_edges = [(t2, l2) for t2 in X.cfg.tests() if t2.kind == "test" and t2.ast is not None for l2 in ("T", "F") if H.none_proving(t2.ast, H.flip(l2)) == var and not isinstance(t2.ast, ast.Name)]
+            nn_edges = H.proving_edges(X, lambda e_, l2, n2: not isinstance(e_, ast.Name) and H.none_proving(e_, H.flip(l2)) == var and (n2.kind == "test" or X.same_defs(var, n2, at)))
             defnodes = X.def_nodes_of(var)
             for d in X.rd.reaching(at, var):
                 if d.kind == "aug":
